@@ -114,7 +114,9 @@ def reuse_sites(fn_node: ast.AST) -> List[Tuple[ast.AST, str, str, ast.AST]]:
                          and any(isinstance(t, ast.Name) and t.id == name for t in
                                  (m.targets if isinstance(m, ast.Assign) else [m.target])))
         limit = rebinds[0] if rebinds else 10 ** 9
+        own = {id(m) for m in ast.walk(b)}       # `xs = (f(x) for x in xs)`: the right-hand side reads the *previous* value
         reads = [m for m in ast.walk(fn_node) if isinstance(m, ast.Name) and m.id == name and isinstance(m.ctx, ast.Load)
+                 and id(m) not in own
                  and (isinstance(b, ast.arg) or (m.lineno, m.col_offset) > (b.lineno, b.col_offset)) and m.lineno <= limit]
         consuming = []
         for r in reads:
